@@ -13,6 +13,14 @@ real serialiser / parser of fastparquet (cencoding.ThriftObject.to_bytes / from_
   c10.pickle   pickle.loads(pickle.dumps(obj)) == obj for objects of both origins.
   c10.oversize payloads around / above the fixed 500 000 byte serialisation buffer, ONLY in a
                subprocess (heap overflow): wrong output, crash or signal is the failed case.
+  c10.update_kv the key-value UPDATE path (util.update_custom_metadata on a FileMetaData object / on a ParquetFile,
+               writer.update_file_custom_metadata on a data file / on the _metadata file of a hive dataset) with
+               values given as str or bytes - ASCII, 2-, 3-, 4-byte UTF-8 characters, mixed - of 0 .. 400 000
+               characters (up to 1.2 MB encoded), adding a key or replacing one, ONLY in a subprocess: afterwards every
+               KeyValue key / value of the metadata object is `bytes` (the form the serialiser sizes its buffer for),
+               the footer decodes strictly with the independent IDL codec to the old entries + the new one, the file
+               re-opens with the value intact and the data unchanged.  (The dataset is first WRITTEN with a small
+               ASCII value only: large non-ASCII str values handed to write() are the known to_bytes findings.)
 
 The oracle (spec.thrift_idl enc/dec, value generator, by-name comparison) shares no code and no
 table with fastparquet: ids, wire types and requiredness come from the .thrift text.
@@ -602,6 +610,163 @@ VIOLATED = WHAT is not None
 '''
 
 
+UPDATE_PROG = r'''
+import os, sys, json, resource, struct, tempfile, shutil
+resource.setrlimit(resource.RLIMIT_CORE, (0, 0))        # this process may abort: leave no core file
+sys.path.insert(0, os.environ.get('VERIF_REPO', '/repo')); sys.path.insert(0, '/verif')
+import pandas as pd
+import fastparquet
+from fastparquet import util, writer
+from fastparquet.cencoding import ThriftObject as TO, from_buffer
+from spec import thrift_idl as T
+idl = T.load()
+TARGET, OP, VTYPE, ALPHA, CHARS = {target!r}, {op!r}, {vtype!r}, {alpha!r}, {chars!r}
+UNIT = {{"ascii": "abcdefghij", "latin2": "éßøñ", "cjk3": "漢字テスト", "emoji4": "\U0001F600\U0001d11e", "mixed": "aé中\U0001F600 z"}}[ALPHA]
+TEXT = (UNIT * (CHARS // len(UNIT) + 1))[:CHARS]
+VALUE = TEXT if VTYPE == "str" else TEXT.encode("utf8")
+KEY = "owner" if OP == "replace" else "note"
+print("SIZE", len(TEXT.encode("utf8")), flush=True)
+
+def footer_kv(path, metadata_file):
+    with open(path, "rb") as f:
+        b = f.read()
+    if b[:4] != b"PAR1" or b[-4:] != b"PAR1":
+        return None, "file does not start / end with PAR1"
+    n = struct.unpack("<I", b[-8:-4])[0]
+    if metadata_file and n != len(b) - 12:
+        return None, "footer length field %d, the _metadata file holds %d footer bytes" % (n, len(b) - 12)
+    try:
+        fmd, used = T.dec(idl, "FileMetaData", bytes(b[len(b) - 8 - n:len(b) - 8]), 0, strict=False)
+    except Exception as e:
+        return None, "footer does not decode: %s: %s" % (type(e).__name__, str(e)[:100])
+    if used != n:
+        return None, "footer decodes using %d of %d bytes" % (used, n)
+    return [(kv.get("key"), kv.get("value")) for kv in fmd.get("key_value_metadata") or []], None
+
+def types_ok(kvm):
+    for kv in kvm or []:
+        if type(kv.key) is not bytes or not (kv.value is None or type(kv.value) is bytes):
+            return "after update_custom_metadata the KeyValue %r holds key %s / value %s (texts must be stored as bytes)" % (
+                kv.key if len(str(kv.key)) < 30 else "...", type(kv.key).__name__, type(kv.value).__name__)
+    return None
+
+def run():
+    d = tempfile.mkdtemp(prefix="verif-c10u-")
+    try:
+        df = pd.DataFrame({{"a": [1, 2, 3], "b": ["x", "y", "z"]}})
+        hive = TARGET == "metadata-file"
+        path = os.path.join(d, "ds" if hive else "data.parquet")
+        fastparquet.write(path, df, custom_metadata={{"owner": "me", "other": "kept"}}, file_scheme="hive" if hive else "simple")
+        target = os.path.join(path, "_metadata") if hive else path
+        before, err = footer_kv(target, hive)
+        if err:
+            return "before the update: " + err
+        want = [kv for kv in before if kv[0] != KEY.encode()]
+        new = (KEY.encode(), TEXT.encode("utf8"))
+        if OP == "replace":
+            want = [new if kv[0] == KEY.encode() else kv for kv in before]
+        else:
+            want = before + [new]
+        if TARGET in ("thrift-object", "parquetfile-object"):
+            pf = fastparquet.ParquetFile(path)
+            obj = pf.fmd if TARGET == "thrift-object" else pf
+            util.update_custom_metadata(obj, {{KEY: VALUE}})
+            msg = types_ok(pf.fmd.key_value_metadata)
+            if msg:
+                return msg
+            got = [(kv.key, kv.value) for kv in pf.fmd.key_value_metadata]
+            if got != want:
+                return "key-value list after the update differs: %d entries, expected %d; entry of %r: %s" % (
+                    len(got), len(want), KEY, [type(v).__name__ + ":" + str(len(v)) for k, v in got if k in (KEY, KEY.encode())])
+            data = pf.fmd.to_bytes()
+            back = from_buffer(data, "FileMetaData")
+            got = [(kv.key, kv.value) for kv in back.key_value_metadata]
+            if got != want:
+                return "from_buffer(to_bytes(updated FileMetaData)) carries other key-values (%d entries, expected %d)" % (len(got), len(want))
+            fmd2, used = T.dec(idl, "FileMetaData", bytes(data), 0, strict=False)
+            if used != len(data) or [(kv.get("key"), kv.get("value")) for kv in fmd2.get("key_value_metadata") or []] != want:
+                return "to_bytes(updated FileMetaData) does not decode (independent codec) to the updated key-values"
+            return None
+        writer.update_file_custom_metadata(target, {{KEY: VALUE}})
+        after, err = footer_kv(target, hive)
+        if err:
+            return "after the update: " + err
+        if after != want:
+            return "footer key-values after the update: %d entries %s, expected %d; value of %r has %s bytes, expected %d" % (
+                len(after), [k for k, _ in after][:6], len(want), KEY, [len(v) for k, v in after if k == KEY.encode()], len(new[1]))
+        pf = fastparquet.ParquetFile(path)
+        kv = pf.key_value_metadata
+        if kv.get(KEY) != TEXT or kv.get("other") != "kept" or (OP != "replace" and kv.get("owner") != "me"):
+            return "re-opened dataset: key_value_metadata[%r] has %s characters (expected %d), other=%r owner=%r" % (
+                KEY, None if kv.get(KEY) is None else len(kv.get(KEY)), len(TEXT), kv.get("other"), kv.get("owner") if len(str(kv.get("owner"))) < 20 else "...")
+        out = pf.to_pandas()
+        if out["a"].tolist() != [1, 2, 3] or out["b"].tolist() != ["x", "y", "z"]:
+            return "data changed / unreadable after the metadata update"
+        return None
+    finally:
+        shutil.rmtree(d, ignore_errors=True)
+
+try:
+    WHAT = run()
+except Exception as e:
+    import traceback
+    WHAT = "%s: %s @ %s" % (type(e).__name__, str(e)[:160], traceback.extract_tb(e.__traceback__)[-1].name)
+print("RESULT " + json.dumps(WHAT))
+VIOLATED = WHAT is not None
+'''
+
+
+def update_prog(case):
+    return UPDATE_PROG.format(**case)
+
+
+def update_snippet(case):
+    return ("import subprocess, sys, os\n"
+            f"PROG = {update_prog(case)!r}\n"
+            "r = subprocess.run([sys.executable, '-c', PROG], capture_output=True, text=True, timeout=300)\n"
+            "print(r.returncode, r.stdout[-400:], r.stderr[-400:])\n"
+            "VIOLATED = not (r.returncode == 0 and 'RESULT null' in r.stdout)\n")
+
+
+def run_update(case):
+    try:
+        r = subprocess.run([sys.executable, "-c", update_prog(case)], capture_output=True, text=True,
+                           timeout=300, cwd="/verif", env=dict(os.environ))
+    except subprocess.TimeoutExpired:
+        return case, "child timed out", None
+    size = [int(l.split()[1]) for l in r.stdout.splitlines() if l.startswith("SIZE ")]
+    size = size[0] if size else None
+    if r.returncode < 0:
+        return case, f"child killed by signal {-r.returncode} during the key-value update / re-serialisation", size
+    line = [l for l in r.stdout.splitlines() if l.startswith("RESULT ")]
+    if r.returncode != 0 or not line:
+        return case, f"child exit {r.returncode}: {r.stderr.strip().splitlines()[-1:] or r.stdout[-200:]}", size
+    return case, json.loads(line[-1][7:]), size
+
+
+UPDATE_TARGETS = ["data-file", "metadata-file", "thrift-object", "parquetfile-object"]
+
+
+def enumerate_updates(tier):
+    small = [("str", "mixed", 1000), ("str", "ascii", 0), ("str", "cjk3", 1), ("bytes", "mixed", 1000), ("str", "latin2", 40_000)]
+    large = [("str", "cjk3", 170_000), ("str", "cjk3", 400_000), ("str", "emoji4", 130_000), ("str", "latin2", 300_000),
+             ("str", "ascii", 600_000), ("bytes", "cjk3", 400_000)]
+    if tier != "quick":
+        small += [(t, a, n) for t in ("str", "bytes") for a in ("ascii", "latin2", "cjk3", "emoji4", "mixed") for n in (0, 1, 127, 128, 16_384)]
+        large += [(t, a, n) for t in ("str", "bytes") for a in ("latin2", "cjk3", "emoji4", "mixed") for n in (125_000, 166_700, 250_000, 500_001)]
+    out, seen = [], set()
+    for ti, target in enumerate(UPDATE_TARGETS):
+        for oi, op in enumerate(("add", "replace")):
+            for k, (vtype, alpha, chars) in enumerate(small + large):
+                if tier == "quick" and (vtype, alpha, chars) in small[1:] and (ti + oi + k) % 2:
+                    continue
+                key = (target, op, vtype, alpha, chars)
+                if key not in seen:
+                    seen.add(key)
+                    out.append({"target": target, "op": op, "vtype": vtype, "alpha": alpha, "chars": chars})
+    return out
+
+
 def oversize_prog(site, n, path):
     helpers = "\n\n".join(textwrap.dedent(inspect.getsource(f)) for f in SNIPPET_HELPERS)
     return OVERSIZE_PROG.format(helpers=helpers, site=site, n=n, path=path)
@@ -726,6 +891,15 @@ def run_bounded(ctx):
         "non-ASCII / arbitrary bytes); nested lists 2,2,1 deep; strict decode = every field id and wire "
         f"type must be the IDL's, no trailing bytes.  In-process size cap {INPROC_LIMIT} bytes.")
     GA, GF, GP, GO, GE = "c10.api", "c10.foreign", "c10.pickle", "c10.oversize", "c10.eq"
+    GU = "c10.update_kv"
+    ctx.bounded_group(GU, rule="key-value update path: targets {update_file_custom_metadata on a data file, on the _metadata file of "
+                      "a hive dataset; util.update_custom_metadata on the FileMetaData object, on the ParquetFile} x {add a key, "
+                      "replace a key} x value given as str | bytes x alphabets {ASCII, 2-byte, 3-byte, 4-byte UTF-8 characters, mixed} "
+                      "x lengths: small {0, 1, 1000, 40 000 characters} and large {170 000 / 400 000 CJK (510 kB / 1.2 MB encoded), "
+                      "130 000 4-byte, 300 000 2-byte, 600 000 ASCII characters as str; 1.2 MB as bytes} (thorough: + 5 small and 4 "
+                      "large lengths x both types x every alphabet); dataset written before with small ASCII values; each case in "
+                      "its own child process; KeyValue texts stored as bytes, strict independent decode of the new footer == old "
+                      "entries + new one, re-open gives the value and the data back; crash / signal = failed")
     ctx.bounded_group(GA, rule=rule_common + "  API path additionally x text passed as {str, bytes} x absent "
                       "fields {omitted, None}.")
     ctx.bounded_group(GF, rule=rule_common + "  Bytes come from the independent encoder (another writer).")
@@ -789,11 +963,14 @@ def run_bounded(ctx):
         ojobs = [(site, n, p) for site in OVERSIZE_SITES for n in sizes + [499_900, 499_990, 500_000, 1_000_000]
                  for p in ("api", "foreign")]
     ncpu = os.cpu_count() or 2
+    ujobs = enumerate_updates(ctx.tier)
     with concurrent.futures.ThreadPoolExecutor(max_workers=10) as oex:
         ofuts = [oex.submit(run_oversize, j) for j in ojobs]
+        ufuts = [oex.submit(run_update, j) for j in ujobs]
         wire = [{"spec": j[3], "crypto": j[4], "fn": j[5], "args": j[6], "seed": seed} for j in jobs]
         results, unevaluated = run_worker_jobs(wire, max(2, min(8, ncpu - 6)))
         oresults = [f.result() for f in ofuts]
+        uresults = [f.result() for f in ufuts]
     for (group, F, nontriv, spec, crypto, fn, args, v), what in zip(jobs, results):
         if what == NOT_EVALUATED:
             continue
@@ -811,6 +988,16 @@ def run_bounded(ctx):
              "path": path}
         with Case(ctx, GO, F, snippet=oversize_snippet(site, n, path),
                   contract="to_bytes never truncates: strict_idl_decode(to_bytes(x)) == x for any size") as c:
+            if what:
+                c.fail(what)
+
+    # ---- key-value update path: child processes only ---------------------------------------------
+    for case, what, size in uresults:
+        F = dict(case, utf8_bytes_gt_500000=None if size is None else size > 500_000,
+                 chars_lt_utf8_bytes=None if size is None else case["chars"] < size)
+        with Case(ctx, GU, F, snippet=update_snippet(case),
+                  contract="update_custom_metadata stores key / value texts as bytes; the re-serialised footer decodes strictly "
+                           "to the old entries + the updated one for any value length; re-open gives value and data back") as c:
             if what:
                 c.fail(what)
 
